@@ -382,3 +382,43 @@ pub fn slot_subsets(n: usize, k: usize) -> Vec<Vec<u8>> {
     rec(n, k, 0, &mut Vec::new(), &mut out);
     out
 }
+
+/// Parallel enumeration of all N-multisets (non-decreasing arrays) over 0..alphabet.
+/// Units are the first two elements (a <= b).
+pub fn par_multisets<const N: usize, X, MK, W>(ctx: &Ctx, alphabet: u8, unit_stride: usize, mk: MK, work: W) -> Vec<St<X>>
+where
+    X: Send,
+    MK: Fn() -> X + Sync,
+    W: Fn(&mut St<X>, &[u8; N], usize) + Sync,
+{
+    assert!(N >= 3 && N <= 8);
+    let units = pairs_rep(alphabet);
+    let ids: Vec<usize> = (0..units.len()).filter(|u| u % unit_stride.max(1) == 0).collect();
+    par_run(ctx, ids.len(), mk, |st, ui| {
+        let u = ids[ui];
+        let (a, b) = units[u];
+        let mut c = [0u8; N];
+        c[0] = a;
+        c[1] = b;
+        for j in 2..N {
+            c[j] = b;
+        }
+        loop {
+            work(st, &c, u);
+            let mut i = N - 1;
+            loop {
+                if c[i] < alphabet - 1 {
+                    c[i] += 1;
+                    for j in (i + 1)..N {
+                        c[j] = c[i];
+                    }
+                    break;
+                }
+                if i == 2 {
+                    return;
+                }
+                i -= 1;
+            }
+        }
+    })
+}
